@@ -46,24 +46,25 @@ import GherkinVerif.Props.C02Tree
 import GherkinVerif.Gen.ParserTable
 import GherkinVerif.Gen.Dialects
 import GherkinVerif.Gen.Grammar
+import GherkinVerif.KDecide
 namespace GV
 open Spec
 
 /-! ### facts about the regenerated tables, evaluated by the kernel -/
 
 /-- the C05 keyword facts, and: no keyword starts with `"` or a backtick (= `C02T_fact_dialects`) -/
-theorem C03P_fact_dialects : Spec.textDialectFacts Gen.dialects = true := by decide +kernel
+theorem C03P_fact_dialects : Spec.textDialectFacts Gen.dialects = true := by kdecide
 /-- look-aheads uniform, tag states closed, guarded tests followed by tag-line tests (= `C18_fact_queue`) -/
-theorem C03P_fact_queue : Spec.queueFacts Gen.parserTable = true := by decide +kernel
+theorem C03P_fact_queue : Spec.queueFacts Gen.parserTable = true := by kdecide
 /-- comment and blank lines are accepted by some test of every state (= `C18_fact_comment_blank`) -/
-theorem C03P_fact_comment_blank : Spec.commentBlankTested Gen.parserTable = true := by decide +kernel
+theorem C03P_fact_comment_blank : Spec.commentBlankTested Gen.parserTable = true := by kdecide
 /-- doc-string content states are entered and left by separator lines only (= `C13_content_entry`) -/
-theorem C03P_fact_content : Spec.contentEntry Gen.parserTable = true := by decide +kernel
+theorem C03P_fact_content : Spec.contentEntry Gen.parserTable = true := by kdecide
 /-- `start_rule(DocString)` occurs only in `DocStringSeparator` tests of non-content states, directly
     followed by `build`; the start state is not a content state -/
-theorem C03P_fact_doc_opens : Spec.docStringOpens Gen.parserTable = true := by decide +kernel
+theorem C03P_fact_doc_opens : Spec.docStringOpens Gen.parserTable = true := by kdecide
 /-- every test hands its token to the builder exactly once (= `C18_fact_builds`) -/
-theorem C03P_fact_builds : Spec.oneBuildLast Gen.parserTable = true := by decide +kernel
+theorem C03P_fact_builds : Spec.oneBuildLast Gen.parserTable = true := by kdecide
 
 /-- all facts the link uses, for the regenerated dialect table, parser table and grammar (the
     typed-stack certificate `Lemmas.typedCheck_gen` of C02, the shape check `Lemmas.shapeCheck_gen`
@@ -224,7 +225,7 @@ example : (MState.init Gen.dialects (lit "en")).map (fun μ =>
       | .ok d => [canonicalIds d, [r.2.ids], srcLines d, r.2.builds.map Token.lineNo, [d.comments.length]]
       | _ => []) =
     some [[5, 6, 7, 8, 9, 10, 11, 12, 13], [14], [3, 4, 5, 6, 9, 10, 11, 11, 13, 14, 15],
-      [1, 2, 3, 4, 5, 6, 7, 8, 9, 10, 11, 12, 13, 14, 15, 16], [1]] := by decide +kernel
+      [1, 2, 3, 4, 5, 6, 7, 8, 9, 10, 11, 12, 13, 14, 15, 16], [1]] := by kdecide
 
 /-- … and the tree of the theorem, computed: the tokens handed to the builder hung into the tree
     of the kind-level events.  It is a document tree, its leaves are these tokens, they are well
@@ -240,7 +241,7 @@ example : (MState.init Gen.dialects (lit "en")).map (fun μ =>
         decide ((leaves t).map (fun x => (x.lineNo, x.mtype, x.text)) = r.2.builds.map (fun x => (x.lineNo, x.mtype, x.text))) &&
         decide (Lemmas.Ex.docOf ((astOf (commentsOf t) t).run.run 5) = some d) &&
         decide (((astOf (commentsOf t) t).run.run 5).2 = r.2.ids)
-      | _, _ => false) = some true := by decide +kernel
+      | _, _ => false) = some true := by kdecide
 
 end examples
 end GV
